@@ -57,11 +57,10 @@ func c11ChildMain() {
 	}
 	// keep the Go heap from ballooning just because garbage is not collected
 	// yet: the observation is about live memory.
-	debug.SetGCPercent(50)
+	debug.SetGCPercent(400)
 	env := c11NewEnv()
-	if os.Getenv("VERIF_C11_WARM_M") != "" {
-		env.mInit()
-	}
+	env.mInit()
+	debug.SetGCPercent(50)
 	runtime.GC()
 	debug.FreeOSMemory()
 	base, _ := c11RSSMB()
@@ -80,6 +79,13 @@ func c11ChildMain() {
 		for {
 			time.Sleep(50 * time.Millisecond)
 			rss, _ := c11RSSMB()
+			if rss-base > c11MemCapMB {
+				// garbage not yet collected or not yet returned to the OS does
+				// not count: collect, release, look again.
+				runtime.GC()
+				debug.FreeOSMemory()
+				rss, _ = c11RSSMB()
+			}
 			if rss-base > c11MemCapMB {
 				curMu.Lock()
 				id := cur
@@ -106,6 +112,8 @@ func c11ChildMain() {
 			out := env.c11RunK(in)
 			if out.Class == "vm-panic" {
 				k := out
+				runtime.GC()
+				debug.FreeOSMemory()
 				out = env.c11RunM(in)
 				// the replica must reproduce the keeper's observation
 				if out.Class == c11OK || out.Class == c11TypeCheck || out.Class == c11Invalid || out.Class == c11Rejected {
